@@ -29,6 +29,7 @@ func TestVerif_C12_bidir(t *testing.T) {
 	rec := vh.NewRec("C12", "bidir", "rapid-generated (phantom subnet file x registrar configuration x one hostile client request) through RegisterBidirectional with a recording ZMQ sender; the forwarded bytes are ingested by a station built from the same subnet file; non-trivial = the request was accepted and a forged registrar-only field, a parameter override or a substituted phantom is present; distinct by whole case")
 	defer rec.Flush()
 	rec.Require("accepted", "refused", "forged-response", "forged-signature-fields", "authenticated", "unauthenticated",
+		"built-by-exported-constructor:auth=true", "built-by-exported-constructor:auth=false",
 		"param-override", "overrides-disabled-and-configured", "substituted:Min_Transport", "substituted:Prefix_Transport",
 		"substituted-from-subnet-written-non-canonically", "original-in-exclusion", "exclusion-decisive:unlabelled", "exclusion-decisive:labelled-own-transport", "exclusion-decisive:labelled-other-transport",
 		"station-v4", "station-v6", "dual-stack", "forwarded-source-not-bidirectional-and-registrar-changed-something",
